@@ -7,13 +7,13 @@ float consistent with that order is returned.  Any code that inspects only order
 behaves exactly as on the real values.  A float() from any other call site aborts the path as inconclusive.
 """
 import sys
-from .core import Ctx, F, Inconclusive
+from .core import Ctx, F, FC, Inconclusive
 
 # function names in the library under test whose astype('float64') / float() only feeds comparisons
 ALLOWED_SITES = {
-    'normalize',            # utils/core.py: abs_norms.astype('float64') != 0
-    'affine_coords',        # projective.py: apoints[..., i].astype('float64') == 0
-    'diagonalize_form',     # utils/core.py: np.isclose(Dinv.astype('float64'), 0), sign/order of eigenvalues
+    'normalize': 'zero',          # utils/core.py: abs_norms.astype('float64') != 0       -- only zero-ness is inspected
+    'affine_coords': 'zero',      # projective.py: |apoints[..., i]|.astype('float64') == 0 -- only zero-ness is inspected
+    'diagonalize_form': 'order',  # utils/core.py: np.isclose(Dinv.astype('float64'), 0), sign/order of eigenvalues
 }
 EXTRA_ALLOWED = set()       # harness-level additions (stated in the harness' assumptions)
 
@@ -33,6 +33,55 @@ def _site():
     return None
 
 
+def zero_only_site():
+    """is the innermost library frame a call site that only inspects zero-ness of the value being computed?"""
+    f = sys._getframe(2)
+    while f is not None:
+        fn = f.f_code.co_filename
+        if 'geometry_tools' in fn:
+            return f.f_code.co_name == 'affine_coords' and ALLOWED_SITES.get('affine_coords') == 'zero'
+        f = f.f_back
+    return False
+
+
+class LazyAbs:
+    """|x| computed inside projective.affine_coords, where it is only cast to float64 and compared with 0"""
+    ndim = 0
+    shape = ()
+    __hash__ = None
+
+    def __init__(self, x):
+        self.x = x
+
+    def __float__(self):
+        Ctx.cur.log.append("float@affine_coords")
+        return 0.0 if bool(self.x == 0) else 1.0
+
+    def _force(self):
+        x = self.x
+        if isinstance(x, F):
+            return x if bool(x >= 0) else -x
+        return (x.re * x.re + x.im * x.im).sqrt()
+
+    def __getattr__(self, name):
+        return getattr(self._force(), name)
+
+    def __add__(self, o): return self._force() + o
+    def __radd__(self, o): return o + self._force()
+    def __sub__(self, o): return self._force() - o
+    def __rsub__(self, o): return o - self._force()
+    def __mul__(self, o): return self._force() * o
+    def __rmul__(self, o): return o * self._force()
+    def __truediv__(self, o): return self._force() / o
+    def __rtruediv__(self, o): return o / self._force()
+    def __eq__(self, o): return self.x == 0 if (isinstance(o, (int, float)) and o == 0) else self._force() == o
+    def __ne__(self, o): return self.x != 0 if (isinstance(o, (int, float)) and o == 0) else self._force() != o
+    def __lt__(self, o): return self._force() < o
+    def __le__(self, o): return self._force() <= o
+    def __gt__(self, o): return self._force() > o
+    def __ge__(self, o): return self._force() >= o
+
+
 def concretise(x):
     cx = Ctx.cur
     site = _site()
@@ -40,6 +89,9 @@ def concretise(x):
         raise Inconclusive(f"float() of a symbolic value at non-allow-listed site {site}")
     if x.is_const():
         return float(x.const_value())
+    if ALLOWED_SITES.get(site) == 'zero':
+        cx.log.append(f"float@{site}")
+        return 0.0 if bool(x == 0) else 1.0
     table = cx.float_sites.setdefault('_all', [(F.const(0), 0.0)])
     cx.log.append(f"float@{site}")
     # binary search by forking
